@@ -72,6 +72,9 @@ func MustPass(target ssa.Instruction, g *Gates) (bool, []int) {
 }
 
 func mustPassFrom(start *ssa.BasicBlock, idx int, target ssa.Instruction, g *Gates) (bool, []int) {
+	if g == nil {
+		g = NewGates()
+	}
 	type item struct {
 		b    *ssa.BasicBlock
 		from int
